@@ -18,13 +18,17 @@
    of maximal sort key; (3) the rescale sweep recomputes EVERY interval at the
    current scale (the defect repaired in /repo 6d8622d); (4) discarding
    unfinished points makes the expected table equal the real one.
+   (5) C01_values_inv: every stored loss equals the loss function on the
+   CURRENT data at a y-scale that is the scale of the last full recomputation
+   or at most factor times it, for nth_neighbors arbitrary (window / frame
+   lemma), along every legal history.
    NOT proved (decided by the correspondence and the from-scratch oracle only,
-   hence C01 is partly `_partial`): the stored VALUES equal the loss function
-   on the current data at a scale within the factor for every interval along
-   whole histories (ghost-scale invariant), the interpolation values of cut
-   intervals, and the batch path of tell_many (excluded by [legal]). *)
+   hence C01 stays partly `_partial`): the lower bound "scale >= scale of the
+   last recomputation" (needs monotonicity of the bounding box in an ordered
+   field), the interpolation VALUES of intervals cut by pending points (their
+   KEYS are proved), and the batch path of tell_many (excluded by [legal]). *)
 From Coq Require Import ZArith Lia.
-From AV Require Import Base.Prelude Model.L1D Proofs.L1DOrder Proofs.L1DMaps Proofs.L1DStruct Proofs.L1DLoss Proofs.L1DProofs.
+From AV Require Import Base.Prelude Model.L1D Proofs.L1DOrder Proofs.L1DMaps Proofs.L1DStruct Proofs.L1DLoss Proofs.L1DValues Proofs.L1DProofs.
 
 Section C01.
   Variable num : Type.
@@ -47,6 +51,21 @@ Section C01.
   Theorem C01_structure_inv : OrdLaws ltb eqb -> forall h,
     legal init h = true -> SInv ltb eqb (run init h).
   Proof. exact (@structure_inv num add sub mul div ltb eqb zero one inf neg_inf is_nan is_inf round12 of_nat L P). Qed.
+
+  (* every stored loss is the loss function applied to the CURRENT data (the
+     2+2*nn neighbouring evaluated points of the current point set, current
+     x-scale) at a y-scale g that is the scale of the last full recomputation
+     or at most [factor] times it ([ScaleOK]); the x-normalisation is the
+     domain width throughout *)
+  Theorem C01_values_inv : OrdLaws ltb eqb -> forall h,
+    legal init h = true ->
+    VInv sub mul div ltb eqb zero one L P (run init h).
+  Proof.
+    intros OL h Hl.
+    exact (proj2 (@values_inv num add sub mul div ltb eqb zero one inf neg_inf is_nan is_inf round12 of_nat L P OL h init
+                    (conj (sinv_init add sub mul div ltb eqb zero inf neg_inf is_nan is_inf round12 P)
+                          (vinv_init sub mul div ltb eqb zero one inf neg_inf L P)) Hl)).
+  Qed.
 
   Theorem C01_loss_is_max : OrdLaws ltb eqb -> forall (s : st num) (real : bool),
     let table := if real then los s else losc s in
@@ -106,6 +125,7 @@ Proof.
 Qed.
 
 Print Assumptions C01_structure_inv.
+Print Assumptions C01_values_inv.
 Print Assumptions C01_loss_is_max.
 Print Assumptions C01_sweep_resets_all.
 Print Assumptions C01_discard_resets.
